@@ -133,6 +133,16 @@ def setitem_worker(job):
         want = ref(x)
     except Exception as e:
         rec["skip"] = True; return rec
+    # the right-hand side of an assignment / augmented operator is an argument too: it must not change
+    if len(inputs) == 2 and form in ("basic", "aug"):
+        try:
+            xa, va = ndx.asarray(inputs[0]), ndx.asarray(inputs[1])
+            vdt, vval = va.dtype, va.to_numpy().copy()
+            nd(xa, va)
+            if va.dtype != vdt or va.to_numpy() is None or not progs.same_value(va.to_numpy(), vval):
+                rec["fail"].append(("eager", "modifies-right-hand-side", f"update array was {vdt} {impl.canon(vval)}, now {va.dtype} {impl.canon(va.to_numpy()) if va.to_numpy() is not None else None}"[:300]))
+        except Exception:
+            pass
     res = sweep.run_case(nd, inputs, dts)
     for mode, got in res.items():
         if sweep.is_error(got):
